@@ -60,6 +60,16 @@ func (mb *mbox) getMessage(id string) (storage.Message, error) {
 	return nil, storage.ErrNotExist
 }
 
+// hasID reports whether the loaded index contains a message with the given ID.
+func (mb *mbox) hasID(id string) bool {
+	for _, m := range mb.messages {
+		if m.Fid == id {
+			return true
+		}
+	}
+	return false
+}
+
 // removeMessage deletes the message off disk and removes it from the index.
 func (mb *mbox) removeMessage(id string) error {
 	if !mb.indexLoaded {
